@@ -3,7 +3,7 @@
    compat = model of pipefunc.typing.is_type_compatible (Model/Ty.v, after the repairs listed there),
    sub    = declarative relation from the property text (Model/Ty.v),
    subb   = its decision procedure, the oracle of the correspondence check (Model/TySpec.v). *)
-From Verif Require Import Base.Prelude Model.Ty Model.TyPipe Model.TySpec Proofs.TyFacts Proofs.TyPipeFacts Corr.Run_C16.
+From Verif Require Import Base.Prelude Model.Ty Model.TyPipe Model.TySpec Proofs.TyFacts Proofs.TyPipeFacts Proofs.TyOrigFacts Model.TyOrig Corr.Run_C16.
 
 (* --- the algebraic laws named by the property, for ALL annotations of the grammar --- *)
 Theorem C16_compat_reflexive : forall a, compat a a = true.
@@ -111,3 +111,12 @@ Proof. vm_compute. repeat split. Qed.
 Theorem C16_spec_ok_on_model : forall c, valid c = true -> spec_ok c (run c) = true.
 Proof. exact spec_ok_on_model. Qed.
 Print Assumptions C16_spec_ok_on_model.
+
+(* --- the repaired defects: on the dispatch of the unrepaired code (Model/TyOrig.v, pipefunc 8bc6eee) the guarded
+       main theorem is false; six witnesses in normal form without TypeVar source, one per repair ("fix:" commits):
+       arity, direction for a required Annotated, string metadata, annotated union source, Array element type
+       against a plain Annotated, constrained TypeVar target --- *)
+Theorem C16_compat_orig_refuted :
+  exists l : list (ty * ty), length l = 6 /\ forallb (fun p => disagrees (fst p) (snd p)) l = true.
+Proof. exact compat_orig_refuted. Qed.
+Print Assumptions C16_compat_orig_refuted.
